@@ -125,4 +125,32 @@ def loopCarriedGated (ls : List LoopLock) : Bool := ls.all fun l => l.gate != 0
 /-- The edges of the graph that lie on a cycle (what survives the elimination), for reporting. -/
 def cyclicEdges (es : List LockEdge) : List (Nat × Nat) := pruneN (lockGraph es).length (lockGraph es)
 
+/-! ### Lock-guarded fields of `Session`
+
+The struct layout of `Session` places fields under a mutex (`mTorrents`: `torrents`, `torrentsByInfoHash`,
+`invalidTorrentIDs`, `pendingIDs`; `mPorts`: `availablePorts`; `mBlocklist`: `blocklist`, `blocklistTimestamp`;
+`mPeerRequests`: `dhtPeerRequests`).  `Generated/Access.lean` lists every access to such a field with the mode in
+which the guard is held there — lexically, or by every caller of the function. -/
+
+/-- `mode`: 0 = guard not held, 1 = held shared (`RLock`), 2 = held exclusive (`Lock`).  `ctor`: the access can only
+run during construction (`NewSession` and the functions only it calls). -/
+structure SessAcc where
+  fn : Nat
+  field : Nat
+  write : Bool
+  mode : Nat
+  ctor : Bool
+  deriving Repr, DecidableEq, Inhabited
+
+/-- Is the field written after construction at all?  (If not — the pointer to the internally synchronised
+blocklist — reading it needs no lock.) -/
+def sessFieldWritten (tbl : List SessAcc) (f : Nat) : Bool := tbl.any fun a => a.field == f && a.write && !a.ctor
+
+/-- The rule: outside construction a write holds the guard exclusively and a read holds it at least shared. -/
+def sessGuardOk (tbl : List SessAcc) (a : SessAcc) : Bool :=
+  a.ctor || !sessFieldWritten tbl a.field || (if a.write then a.mode == 2 else a.mode != 0)
+
+/-- The accesses that break the rule. -/
+def sessUnguarded (tbl : List SessAcc) : List SessAcc := tbl.filter fun a => !sessGuardOk tbl a
+
 end Rain.Discipline
